@@ -389,7 +389,7 @@ func (s *state) report(b *cdrive.Batch, cfg cdrive.Config, prog int, j *cdrive.J
 		return
 	}
 	w := Witness{Family: pi.Family, Tags: pi.Tags, Program: pi.Src, Config: cfg.Name, History: hist, Call: call,
-		Item: div.Label, C: div.C, Interp: div.Interp, CTrace: div.CText, ITrace: div.IText, DivergesAt: div.Call}
+		Item: div.Label, C: div.C, Interp: div.Interp, CTrace: div.CText, ITrace: div.IText, DivergesAt: div.Call, Note: div.Problem}
 	what := fmt.Sprintf("generated C (%s) and the reference semantics disagree on %s after call %d of the history: C %s, Wuffs %s", cfg.Name, div.Label, div.Call, div.C, div.Interp)
 	sig := signature(pi, div.Label)
 	if ba, isBad := j.BadArgOf(k); isBad && div.Call == len(calls)-1 {
@@ -437,9 +437,23 @@ func main() {
 	s := &state{r: r, tools: tools, famPrograms: map[string]int64{}, famCompared: map[string]int64{}, constructs: map[string]int64{},
 		statuses: map[string]int64{}, crashKinds: map[string]int64{}, cfgCompared: map[string]int64{}, sampleFam: map[string]int{}, compileSec: map[string]float64{}, gccKinds: map[string]bool{}}
 	cfg := cdrive.WalkConfig{Tier: r.Tier, BatchSize: 96,
-		Families: []string{"argcheck", "extras", "loops", "calls", "io", "coro", "seeds", "arith", "index", "refine", "facts"},
+		Families: []string{"argcheck", "extras", "loops", "iterate", "calls", "pure", "io", "coro", "seeds", "arith", "index", "refine", "facts"},
 		Extra:    map[string]progen.Family{"extras": extras(), "argcheck": argcheck()},
 		MaxLevel: map[string]int{},
+	}
+	// Programs whose iterate body assigns to the iterate variable itself are
+	// left out (and counted): what that means is not documented, the reference
+	// interpreter rebinds the window every iteration while the generated C sets
+	// .len once per round, and most of them make the generated C spin for ever
+	// (each would cost a watchdog period). One terminating representative is in
+	// the extras family.
+	var iterateReassigned atomic.Int64
+	cfg.Keep = func(family string, p *interp.Prog) bool {
+		if family != "extras" && iterateVarReassigned(p.Src) {
+			iterateReassigned.Add(1)
+			return false
+		}
+		return true
 	}
 	// VERIF_STOP_ON_VIOLATION=1 (speeds up detection self-tests): stop walking as
 	// soon as a violation with an unlisted signature was recorded.
@@ -461,7 +475,7 @@ func main() {
 		// the quick grammars, the thorough grammars of the families that are about
 		// cgen's lowering (loops, calls, arith), then - as far as the budget goes -
 		// the thorough io / coro grammars (coroutines are C05's main course).
-		cfg.Families = []string{"argcheck", "extras", "loops", "calls", "seeds", "io@quick", "coro@quick", "arith@quick", "index@quick", "refine@quick", "facts@quick",
+		cfg.Families = []string{"argcheck", "extras", "loops", "iterate", "calls", "pure", "seeds", "io@quick", "coro@quick", "arith@quick", "index@quick", "refine@quick", "facts@quick",
 			"arith", "io", "coro", "index"}
 		cfg.MaxLevel["facts@quick"], cfg.MaxLevel["refine@quick"] = 2, 3
 	} else {
@@ -545,6 +559,7 @@ func main() {
 			"executions_whose_reader_position_is_not_compared (suspended inside a partially available multi-byte read)": s.maskedRI.Load(),
 			"interpreter_executions_that_hit_the_step_limit (not replayed)":                                             s.hung.Load(),
 			"executions_with_an_out_of_domain_argument (refined bound -/+ 1, type min / max, -1, NULL io)":              s.badArgExecs.Load(),
+			"programs_left_out_because_an_iterate_body_assigns_to_its_iterate_variable":                                 iterateReassigned.Load(),
 			"executions_ending_in_a_suspension":                                                                         s.suspendedExec.Load(),
 			"programs_with_capped_exploration":                                                                          s.cappedProgs.Load(),
 			"programs_whose_signature_the_driver_cannot_call":                                                           s.unsupported.Load(),
@@ -569,4 +584,47 @@ func main() {
 		"not compared: bytes beyond wi of a writer, struct-typed fields, local variables; sanitizer reports are counted, not reported (C01), unless the traces differ as well",
 		"quick compiles with gcc -O1 + ASan + UBSan (and -O2 plain for batches with a sanitizer report); thorough adds gcc -O2 and clang -O2 for every batch",
 	})
+}
+
+// iterateVarReassigned reports whether some iterate block assigns to one of
+// its own iterate variables (canonical layout: one statement per line).
+func iterateVarReassigned(src string) bool {
+	if !strings.Contains(src, "iterate (") {
+		return false
+	}
+	var vars []string
+	depth, inside := 0, false
+	for _, ln := range strings.Split(src, "\n") {
+		t := strings.TrimSpace(ln)
+		if !inside && strings.HasPrefix(t, "iterate (") {
+			inside, depth, vars = true, 0, nil
+			head := t[len("iterate ("):]
+			if i := strings.Index(head, ")("); i >= 0 {
+				head = head[:i]
+			}
+			for _, a := range strings.Split(head, ",") {
+				if j := strings.Index(a, "="); j > 0 {
+					vars = append(vars, strings.TrimSpace(a[:j]))
+				}
+			}
+		}
+		if !inside {
+			continue
+		}
+		for _, v := range vars {
+			if strings.HasPrefix(t, v+" = ") || strings.HasPrefix(t, v+" =? ") {
+				return true
+			}
+		}
+		if strings.HasPrefix(t, "}") {
+			depth--
+		}
+		if strings.HasSuffix(t, "{") {
+			depth++
+		}
+		if depth == 0 && strings.HasPrefix(t, "}") && !strings.Contains(t, "else") {
+			inside = false
+		}
+	}
+	return false
 }
